@@ -10,6 +10,7 @@ meta.json), prints each check's exit status and VIOLATION lines, and ALWAYS undo
 import json, os, subprocess, sys
 
 ROOT = os.path.dirname(os.path.dirname(os.path.abspath(__file__)))
+REPO = os.environ.get("VERIF_REPO", "/repo")   # a scratch copy when set (then /repo is never touched)
 
 
 def main():
@@ -30,11 +31,11 @@ def main():
         sys.path.insert(0, os.path.join(ROOT, "checklib"))
         import props as P
         props = sorted(P.CLAIMED)
-    st = subprocess.run(["git", "-C", "/repo", "status", "--porcelain", "--untracked-files=no"], capture_output=True, text=True).stdout
+    st = subprocess.run(["git", "-C", REPO, "status", "--porcelain", "--untracked-files=no"], capture_output=True, text=True).stdout
     if st.strip():
         print("refusing: /repo has uncommitted changes:\n" + st)
         return 2
-    r = subprocess.run(["git", "-C", "/repo", "apply", os.path.abspath(patch)], capture_output=True, text=True)
+    r = subprocess.run(["git", "-C", REPO, "apply", os.path.abspath(patch)], capture_output=True, text=True)
     if r.returncode != 0:
         print("patch does not apply: " + r.stderr)
         return 2
@@ -52,7 +53,7 @@ def main():
                 print("   | " + l[:300])
             sys.stdout.flush()
     finally:
-        subprocess.run(["git", "-C", "/repo", "checkout", "--", "."])
+        subprocess.run(["git", "-C", REPO, "checkout", "--", "."])
         subprocess.run(["git", "-C", ROOT, "checkout", "--", "evidence"])
     caught = [p for p, v in results.items() if v["rc"] == 1]
     print("CAUGHT-BY: " + (",".join(caught) or "none"))
